@@ -8,6 +8,7 @@ package main
 // wait on a promise) run in a parked goroutine.
 
 import (
+	"encoding/json"
 	"fmt"
 	"os"
 	"path/filepath"
@@ -26,13 +27,15 @@ type VNet struct {
 	byNum  map[int]*NNode
 	nodes  []*NNode
 	// interception
-	ffTamper   func(server *NNode, resp *bnet.FastForwardResponse) // applied to fast-forward responses
-	joinTamper func(resp *bnet.JoinResponse)
-	down       map[int]bool // unreachable nodes
-	steps      int
-	errs       int
-	blocks     int
-	lastPull   struct {
+	ffTamper     func(server *NNode, resp *bnet.FastForwardResponse) // applied to fast-forward responses
+	joinTamper   func(resp *bnet.JoinResponse)
+	syncTamper   func(resp *bnet.SyncResponse)
+	down         map[int]bool // unreachable nodes
+	steps        int
+	unresolvable int
+	errs         int
+	blocks       int
+	lastPull     struct {
 		wire []hg.WireEvent
 		from int
 	}
@@ -57,9 +60,47 @@ func (t *VTransport) call(target string, cmd interface{}) (interface{}, error) {
 		return nil, fmt.Errorf("vtransport: %s unreachable", target)
 	}
 	ch := make(chan bnet.RPCResponse, 1)
-	dst.node.VProcessRPC(bnet.RPC{Command: cmd, RespChan: ch})
+	// requests and responses cross the "wire" as JSON, like NetworkTransport
+	// does, so that the two nodes never share objects
+	dst.node.VProcessRPC(bnet.RPC{Command: wireCopy(cmd), RespChan: ch})
 	r := <-ch
-	return r.Response, r.Error
+	return wireCopy(r.Response), r.Error
+}
+
+// wireCopy: JSON round trip of a command or response (a fresh object graph)
+func wireCopy(v interface{}) interface{} {
+	if v == nil {
+		return nil
+	}
+	b, err := json.Marshal(v)
+	if err != nil {
+		return v
+	}
+	var out interface{}
+	switch v.(type) {
+	case *bnet.SyncRequest:
+		out = new(bnet.SyncRequest)
+	case *bnet.SyncResponse:
+		out = new(bnet.SyncResponse)
+	case *bnet.EagerSyncRequest:
+		out = new(bnet.EagerSyncRequest)
+	case *bnet.EagerSyncResponse:
+		out = new(bnet.EagerSyncResponse)
+	case *bnet.FastForwardRequest:
+		out = new(bnet.FastForwardRequest)
+	case *bnet.FastForwardResponse:
+		out = new(bnet.FastForwardResponse)
+	case *bnet.JoinRequest:
+		out = new(bnet.JoinRequest)
+	case *bnet.JoinResponse:
+		out = new(bnet.JoinResponse)
+	default:
+		return v
+	}
+	if err := json.Unmarshal(b, out); err != nil {
+		return v
+	}
+	return out
 }
 
 func (t *VTransport) Sync(target string, args *bnet.SyncRequest, resp *bnet.SyncResponse) error {
@@ -68,6 +109,9 @@ func (t *VTransport) Sync(target string, args *bnet.SyncRequest, resp *bnet.Sync
 		if sr, ok := r.(*bnet.SyncResponse); ok && sr != nil {
 			*resp = *sr
 		}
+	}
+	if t.vn.syncTamper != nil {
+		t.vn.syncTamper(resp)
 	}
 	t.vn.lastPull.wire = resp.Events
 	if dst, ok := t.vn.byAddr[target]; ok {
@@ -242,6 +286,7 @@ func (w *World) idOfWire(we *hg.WireEvent) string {
 func (vn *VNet) afterSync(r *NNode, fromNum int, wire []hg.WireEvent, err error, b *syncBefore, full bool) {
 	w := vn.w
 	sent := []string{}
+	garbage := 0
 	sender := vn.byNum[fromNum]
 	for i := range wire {
 		id := w.idOfWire(&wire[i])
@@ -255,6 +300,13 @@ func (vn *VNet) afterSync(r *NNode, fromNum int, wire []hg.WireEvent, err error,
 					}
 				}
 			}
+		}
+		if _, ok := w.byID[id]; !ok {
+			// a wire event that names no event the driver knows (e.g. the wire fields of
+			// a frame event re-served by a fast-forwarded node are zero): the receiver's
+			// sync aborts here
+			garbage++
+			break
 		}
 		sent = append(sent, id)
 	}
@@ -287,6 +339,13 @@ func (vn *VNet) afterSync(r *NNode, fromNum int, wire []hg.WireEvent, err error,
 	}
 	vn.blocks += len(o["blocks"].([]interface{}))
 	x := map[string]interface{}{"from": fromNum, "evs": sent, "ins": inserted, "new": created}
+	if vn.syncTamper != nil {
+		x["tampered"] = true // the events named here were altered in transit: the ids are those of the originals
+	}
+	if garbage > 0 {
+		x["unresolvable"] = garbage
+		vn.unresolvable++
+	}
 	if r.fs != nil {
 		if fired := r.fs.TakeFired(); len(fired) > 0 {
 			if !r.lost {
